@@ -190,6 +190,58 @@ func ledgerScenario(c *Ctx, p ledgerParams) {
 					}
 				}
 			}
+		case r < 66: // vertex crafted by a wallet acting as its own sealing node / by the genesis wallet / empty
+			s := n.lastSnap
+			if s == nil || len(s.Leaves) == 0 {
+				continue
+			}
+			sealer := pick(c, w.wallets)
+			issuer := sealer
+			amt := spice.Melange{}
+			var data []byte
+			switch c.Rnd.Intn(5) {
+			case 0: // self-sealed spice transfer
+				amt = spice.Melange{SupplementaryCurrency: 1}
+			case 1: // self-sealed data-only contract
+				data = []byte("self")
+			case 2: // self-sealed, both
+				amt = spice.Melange{SupplementaryCurrency: 1}
+				data = []byte("self")
+			case 3: // issued by the genesis wallet, sealed by someone else
+				issuer = n0.w
+				amt = spice.Melange{Currency: 1}
+			case 4: // empty transaction sealed by someone else
+				issuer = pick(c, w.wallets)
+			}
+			t := w.NewTrx(issuer, pick(c, w.wallets).Address(), amt, data)
+			left, right := s.Leaves[0], s.Leaves[len(s.Leaves)-1]
+			viaOrphan := len(pending) > 0 && c.Rnd.Intn(2) == 0
+			var pd pend
+			if viaOrphan {
+				// child of a vertex this node has not received yet: parked first, admitted (or not) on replay
+				for i := range pending {
+					if pending[i].to == n.id {
+						pd = pending[i]
+						pending = append(pending[:i], pending[i+1:]...)
+						left, right = pd.v.Hash, pd.v.Hash
+						break
+					}
+				}
+				if pd.v.Hash == [32]byte{} {
+					viaOrphan = false
+				}
+			}
+			v, err := accountant.NewVertex(t, left, right, 60, sealer)
+			if err != nil {
+				continue
+			}
+			c.Count("gen.crafted")
+			w.Add(n, &v)
+			if viaOrphan {
+				w.Add(n, &pd.v)
+				w.Retry(n)
+				w.Retry(n)
+			}
 		case r < 80: // gossip delivery, any order
 			if len(pending) > 0 {
 				i := c.Rnd.Intn(len(pending))
